@@ -983,6 +983,26 @@ fn gen_case(rng: &mut Rng, n: usize, tier: &str, scratch: &std::path::Path, out:
                     ops.push(key_op(*rng.pick(&[N1, N2, Right, Left]), none));
                 }
                 _ if !selecting && rng.chance(1, 6) => {
+                    // Caps Lock / Shift-Space in the highlighting state (Shift-Left / Shift-Right over a non-empty
+                    // buffer), then a printable key: the mode toggles there too (seeded change C18-C)
+                    for _ in 0..(2 + rng.below(2)) {
+                        let i = rng.below(world.syls.len() as u64) as usize;
+                        for k in &world.keys[i] {
+                            ops.push(key_op(*k, none));
+                        }
+                    }
+                    for _ in 0..(1 + rng.below(2)) {
+                        ops.push(key_op(*rng.pick(&[Left, Right, Left]), Modifiers { shift: true, ..none }));
+                    }
+                    if rng.chance(3, 4) {
+                        ops.push(Op::Key { idx_of: 0, code: 0, uni: 0xfffd, shift: false, ctrl: false, caps: true, num: false });
+                    } else {
+                        ops.push(key_op(Space, Modifiers { shift: true, ..none }));
+                    }
+                    ops.push(key_op(*rng.pick(&[A, N1, Comma, Z]), none));
+                    ops.push(key_op(*rng.pick(&[Enter, Esc, A]), none));
+                }
+                _ if !selecting && rng.chance(1, 6) => {
                     // a one-syllable choice whose word then leaves the dictionary (learn, type, choose it, unlearn):
                     // the choice stays on screen and is committed (seeded change C04-C)
                     let i = rng.below(world.syls.len() as u64) as usize;
